@@ -269,7 +269,83 @@ def run_C11(ctx):
         ctx.run("c-asan", "eng_inflate.c", scale=0.3)
 
 
+def run_C18(ctx):
+    ctx.run("asm", "eng_huff.c")
+    ctx.run("hist8k", "eng_huff.c", scale=0.15)
+    ctx.run("longer", "eng_huff.c", scale=0.15)
+    if ctx.thorough:
+        ctx.run("c-asan", "eng_huff.c", scale=0.4)
+
+
+def cov_C18(ctx, agg):
+    st = agg.stats
+    c = {"rule": "histograms from 11 families (all zero, single symbol, two symbols, uniform, powers of two up to 2^43, Fibonacci weights, counts near 2^44, sparse random, geometric, dense random, collected from data by each isal_update_histogram variant) x default/subset builder; distinct by hash of the histogram; non-trivial = table creation returned 0 and all monitors ran",
+         "explanation": "stored header parsed by the independent dynamic-header parser (Kraft completeness, exact bit length); the codes the encoder emits (lit_table, len_table, dist_table/dcodes through the encoder's own lookup helpers) for all 256 literals, all lengths 3..258 and distances of the window decoded by the reference; level-0 one-shot/streaming compression with flushes round-trips through reference and zlib under the CPU levels that select each level-0 kernel; install rules probed in many stream states; table switches at completed flush points",
+         "tables_whose_unconstrained_huffman_depth_exceeds_15": int(st.get("tables_needing_length_limiting", 0)), "subset_tables": int(st.get("subset_tables", 0)), "roundtrips": int(st.get("roundtrips", 0)),
+         "symbols_decoded_through_packed_tables": int(st.get("symbols_decoded", 0)), "set_hufftables_refused": int(st.get("set_hufftables_refused", 0)), "set_hufftables_accepted": int(st.get("set_hufftables_accepted", 0)),
+         "cpu_levels_simulated": sorted(agg.sets.get("cpu_levels", []))}
+    for k in ("histogram_families", "histogram_collector_calls", "set_hufftables_states_probed"):
+        c[k] = dict(sorted(agg.cnts.get(k, {}).items()))
+    return c
+
+
+def run_C19(ctx):
+    ctx.run("asm", "eng_hdr.c")
+    if ctx.thorough:
+        ctx.run("c-asan", "eng_hdr.c", scale=0.25)
+
+
+def cov_C19(ctx, agg):
+    st = agg.stats
+    return {"rule": "field combinations from PRNG(seed,index): all 32 optional-field subsets x text/hcrc x time {0,1,0x01020304,~0,random} x xfl/os full byte range x extra length {0,1,255,256,65535,random} x name/comment length {0,1,255,4096,random}; zlib info 0..7, level 0..3, dict on/off, dict_id {0x01020304, random}; writer output sizes {exact, larger, required-1, 0, random smaller}; reader chunkings {all at once, one split at a random point, byte by byte, random chunks} each chunk in its own guard-page mapping released once consumed; undersized extra/name/comment buffers grown on overflow (realloc semantics) or absent; arbitrary inputs: random bytes and multi-bit-flipped / truncated valid headers; distinct by hash of the header bytes and chunking",
+            "explanation": "writers compared byte for byte with an independent RFC 1952 writer (zlib: CMF, FLEVEL/FDICT, FCHECK validity, DICTID most-significant-byte-first); too-small output must return the required size and leave stream and output untouched; readers are fed bytes from the independent writer (never ISA-L's own) and must recover every field, stop exactly at the first byte after the header and only return documented status codes",
+            "header_writes": int(st.get("header_writes", 0)), "too_small_output_cases": int(st.get("too_small_output_cases", 0)), "reader_calls": int(st.get("reader_calls", 0)), "overflow_resumes": int(st.get("overflow_resumes", 0)),
+            "chunked_reads": int(st.get("chunked_reads", 0)), "arbitrary_inputs": int(st.get("arbitrary_inputs", 0)), "reader_status_codes": dict(sorted(agg.cnts.get("reader_status_codes", {}).items()))}
+
+
+C05_KEYS = ("fault:", "oob-write", "ctxinv", "source-modified", "tables-modified", "ptr-array-modified", "engine-crash", "touches-memory", "negative-vects-dereferenced", "gf_vect_mul_init-overrun", "ec_init_tables-overrun", "generator-overrun")
+
+
+def run_C05(ctx):
+    # workload A: every kernel variant with guard-page placement; B/C: codec one-shot and streaming with every chunk in its own
+    # mapping released on consumption; D: the same codec workloads under ASan + -fsanitize=bounds
+    for eng in ("eng_ec.c", "eng_crc.c", "eng_raid.c", "eng_mem.c"):
+        ctx.run("asm", eng, scale=0.6)
+    ctx.run("asm", "eng_deflate.c", scale=0.7)
+    ctx.run("asm", "eng_inflate.c", scale=0.7)
+    ctx.run("asm", "eng_hdr.c", scale=0.5)
+    ctx.run("asm", "eng_huff.c", scale=0.4)
+    ctx.run("c-asan", "eng_deflate.c", scale=0.25)
+    ctx.run("c-asan", "eng_inflate.c", scale=0.25)
+    if ctx.thorough:
+        ctx.run("asm-asan", "eng_deflate.c", scale=0.15)
+        ctx.run("asm-asan", "eng_inflate.c", scale=0.15)
+        ctx.run("c-asan", "eng_huff.c", scale=0.3)
+        ctx.run("c-asan", "eng_hdr.c", scale=0.3)
+        ctx.run("hist8k", "eng_deflate.c", scale=0.1)
+    # only memory-safety monitors belong to this property; functional oracles of the shared engines are other properties' business
+    ctx.agg.viols = [v for v in ctx.agg.viols if v["key"].startswith(C05_KEYS)]
+
+
+def cov_C05(ctx, agg):
+    calls = agg.cnts.get("calls", {})
+    return {"rule": "workload A: every exported EC / CRC / Adler / RAID / zero-detect / histogram kernel variant with every length class and each buffer placed so that it ends directly before or starts directly after an inaccessible page (or near the end with a chosen alignment, the pad being canary); B: one-shot compression/decompression with exact-size END-placed input, output, level_buf, hufftables, dictionary and context; C: streaming histories in which every input and output chunk is its own exact-size mapping that is made PROT_NONE as soon as it is consumed/drained; D: B and C on the all-C build under ASan + -fsanitize=bounds; distinct_nontrivial is the engines' distinct case count",
+            "explanation": "oracle = MMU (guard pages, released chunks), canaries around every buffer, context invariants, sanitizer reports; a fault is attributed to the registered buffer and the faulting library symbol",
+            "kernel_variant_symbols_called": len(calls), "kernel_calls": int(sum(calls.values())), "codec_library_calls": int(agg.stats.get("library_calls", 0)),
+            "cpu_levels_simulated": sorted(agg.sets.get("cpu_levels", [])), "tmp_state_resume_points": dict(sorted(agg.cnts.get("tmp_state_resume_points", {}).items()))}
+
+
 PROPS = {
+    "C05": dict(run=run_C05, level="exploration", coverage=cov_C05,
+                floors=lambda ctx, agg: ([] if len(agg.cnts.get("calls", {})) >= 150 else ["only %d kernel symbols called" % len(agg.cnts.get("calls", {}))]) + ([] if agg.stats.get("library_calls", 0) >= 100000 else ["codec calls %d" % agg.stats.get("library_calls", 0)]),
+                assumptions=["declared ranges follow the headers: gf tables 32*k*rows, documented alignment and length multiples for RAID and gf_vect_mul, contexts/level_buf/tables at malloc-grade alignment",
+                             "over-reads that stay inside the caller's own buffers are invisible to page protection (caught only as wrong results by C03/C13)"]),
+    "C19": dict(run=run_C19, level="exploration", coverage=cov_C19,
+                floors=lambda ctx, agg: ([] if agg.stats.get("overflow_resumes", 0) >= 500 else ["overflow resumes %d" % agg.stats.get("overflow_resumes", 0)]) + ([] if agg.stats.get("too_small_output_cases", 0) >= 500 else ["too-small cases"]) + ([] if agg.stats.get("chunked_reads", 0) >= 3000 else ["chunked reads"]),
+                assumptions=["FCHECK may be any value making CMF*256+FLG a multiple of 31 (0 or 31 when both fit)", "on overflow the caller re-supplies a larger buffer that keeps the bytes already copied (realloc semantics, as in the repository's own test)"]),
+    "C18": dict(run=run_C18, level="exploration", coverage=cov_C18,
+                floors=lambda ctx, agg: ([] if agg.stats.get("tables_needing_length_limiting", 0) >= 200 else ["only %d tables needed length limiting" % agg.stats.get("tables_needing_length_limiting", 0)]) + ([] if agg.stats.get("roundtrips", 0) >= 2000 else ["roundtrips %d" % agg.stats.get("roundtrips", 0)]) + ([] if len(agg.cnts.get("set_hufftables_states_probed", {})) >= 4 else ["states probed %s" % agg.cnts.get("set_hufftables_states_probed", {})]),
+                assumptions=["the encoder's per-symbol lookup is observed through the inline helpers of igzip/huffman.h (the same ones isal_deflate_body_base uses)", "subset tables are only used with data whose literals had non-zero counts"]),
     "C07": dict(
         run=run_C07, level="exploration",
         coverage=merge_cov(defl_cov(
